@@ -13,6 +13,7 @@ a parameter `solve` (the driver plugs in Gauss–Jordan elimination `Mat.solveVe
 `w_k = k·(π or 2π)/n`; `scipy.signal.lfilter(b, a, v)` = direct-form recursion.
 -/
 import Nitime.Model.ARBase
+import Nitime.Generated.FreqResponse
 
 namespace Nitime.C10
 open Nitime.AR Nitime.AR.Scalar Nitime.Proto
@@ -79,16 +80,18 @@ def arYW (solve : List (List K) → List K → List K) (r : Nat → K) (order : 
 
 /-! ### AR_psd / freq_response -/
 
-/-- `scipy.signal.freqz(b, a, worN=n, whole=whole)[1]` -/
-def freqz (b a : List K) (whole : Bool) (n : Nat) : List K :=
-  (List.range n).map fun k => polyEval b (phasor whole k n) /. polyEval a (phasor whole k n)
+/-- `scipy.signal.freqz(b, a, worN=n, whole=whole, include_nyquist=incl)[1]` -/
+def freqz (incl : Bool) (b a : List K) (whole : Bool) (n : Nat) : List K :=
+  (List.range n).map fun k =>
+    polyEval b (gridPhasor incl whole k n) /. polyEval a (gridPhasor incl whole k n)
 
-/-- number of grid points `freq_response` asks for -/
-def realN (nFreqs : Nat) (onesided : Bool) : Nat := if onesided then nFreqs / 2 + 1 else nFreqs
+/-- number of grid points `freq_response` asks for — GENERATED from the source -/
+abbrev realN := Nitime.Generated.FreqResponse.realN
 
-/-- `AR_psd(ak, sigma_v, n_freqs, sides)[1]` -/
-def arPsd (ak : List K) (sigma : K) (nFreqs : Nat) (onesided : Bool) : List K :=
-  let hw := freqz [sqrtRe sigma] (one :: ak.map neg) (!onesided) (realN nFreqs onesided)
+/-- `AR_psd(ak, sigma_v, n_freqs, sides)[1]`; `incl` = the `include_nyquist` option
+`freq_response` passes to `freqz` (generated: `Generated.FreqResponse.includeNyquist`) -/
+def arPsd (incl : Bool) (ak : List K) (sigma : K) (nFreqs : Nat) (onesided : Bool) : List K :=
+  let hw := freqz incl [sqrtRe sigma] (one :: ak.map neg) (!onesided) (realN nFreqs onesided)
   hw.map fun h =>
     let p := re (h *. conj h)
     if onesided then ofNat 2 *. p else p
@@ -141,8 +144,9 @@ def handle (args : List String) : String :=
     | some nf, some [sg], some ak =>
       let os := one = "1"
       let n := realN nf os
-      let w := (List.range n).map fun k => CF.gridW (!os) k n
-      "ok " ++ showFloatList w ++ " " ++ showFloatList ((arPsd ak sg nf os).map CF.re)
+      let incl := Nitime.Generated.FreqResponse.includeNyquist
+      let w := (List.range n).map fun k => CF.gridWI incl (!os) k n
+      "ok " ++ showFloatList w ++ " " ++ showFloatList ((arPsd incl ak sg nf os).map CF.re)
     | _, _, _ => "bad-op"
   | ["gen", d, sg, cs, vs] => match d.toNat?, parseCList? sg, parseCList? cs, parseCList? vs with
     | some d, some [sg], some c, some v =>
